@@ -4,6 +4,7 @@ import OV.Lemmas.C09Bcast
 import OV.Lemmas.C09Reshape
 import OV.Lemmas.C09Mat
 import OV.Lemmas.C09Flatten
+import OV.Lemmas.C09Rules
 /-!
 # C09 — shape-based simplifications hold for every runtime binding of symbolic dims
 
@@ -727,5 +728,173 @@ theorem scatter_all_dynamic_sound (a : Int) (s t : Shape)
 example : scatterAllDynamic (some 0) (some 1) (some [.sym "N", .sym "M"]) (some [.sym "M", .known 2]) = true := by decide
 example : scatterAllDynamic (some 1) (some 0) (some [.sym "N", .sym "M"]) (some [.sym "N", .known 2]) = false := by decide
 example : scatterAllDynamic none (some 0) (some [.sym "N", .sym "M"]) (some [.sym "N", .known 2]) = false := by decide
+
+/-! ## Exact failing set of `Flatten2Reshape` -/
+
+/-- **Exact characterisation of the open half of D6.**  Run-time dims may be 0.  Whenever the rule fires
+(so no static dim is 0), for every binding and every truthful output annotation without a static 0, the emitted
+Reshape returns the Flatten result — unless the target is `[0, -1]` *and* dim 0 is 0 at run time. -/
+theorem flatten_to_reshape_exact (s : Shape) (out : Option Shape) (axis : Nat) (tgt : List Int)
+    (h : flattenTarget (some s) out (axis : Int) = some tgt) (hax : axis ≤ s.length)
+    (σ : String → Nat) (l : List Int) (hs : Admits σ s l) (hn : ∀ d ∈ l, 0 ≤ d)
+    (hout : ∀ o, out = some o → Admits σ o (flattenSpec l axis)) (hoz : ∀ o, out = some o → Dim.known 0 ∉ o)
+    (hbad : tgt = [0, -1] → l.head? ≠ some 0) :
+    reshapeTarget l tgt false = some (flattenSpec l axis) :=
+  flatten_core2 s out axis tgt h hax l hs hn hout hoz hbad
+
+/-- … and in that one case the rewritten model rejects the input, whatever the other dims are. -/
+theorem flatten_zero_minus_one_rejects (t : List Int) : reshapeTarget (0 :: t) [0, -1] false = none := by
+  simp [reshapeTarget, resolveZeros, prodInt]
+
+example : flattenTarget (some [.sym "N", .sym "M"]) none 1 = some [0, -1] := by decide
+example : flattenTarget (some [.sym "N", .known 2, .known 3]) none 1 = some [0, 6] := by decide
+
+/-! ## Values, not only shapes: `BinaryOp(Expand(x, e), y)` reads the same elements of `x` -/
+
+/-- For reversed shapes/indices: if `lE` is what `Expand` made of `lx`, then for **every** output index of the
+binary op, the element of `x` reached through the op's broadcasting of the expanded tensor and then through the
+Expand's own broadcasting is the element reached through the op's broadcasting of `x` directly.  Together with
+the shape theorems this makes the removal value-preserving, not only shape-preserving. -/
+theorem expand_reads_same_element (lx le lE idx : List Int)
+    (h : bcastN (max lx.length le.length) lx le = some lE) :
+    readIdx lx (readIdx lE idx) = readIdx lx idx :=
+  readIdx_through_expand _ lx le lE idx rfl h
+
+example : readIdx [1, 3] (readIdx [5, 3] [4, 2]) = readIdx [1, 3] [4, 2] := by decide
+
+/-! ## `collapse_slice`, `collapse_slice2` -/
+
+/-- `_check_if_redundant_slice`: when it answers yes, `start = 0`, `step = 1`, and for every binding the
+slice selects the whole axis: either `end` is INT64_MAX (any dim size up to INT64_MAX), or the axis is static
+and `end ≥` its size. -/
+theorem redundant_slice_sound (st en ax sp : Int) (data : Option Shape)
+    (h : redundantSlice (some st) (some en) (some ax) (some sp) data = true) :
+    st = 0 ∧ sp = 1 ∧
+    ∀ (σ : String → Nat) (d : Int), 0 ≤ d → d ≤ INT64_MAX →
+      (en = INT64_MAX ∨ ∃ s l, data = some s ∧ Admits σ s l ∧ pyIndex l ax = some d) →
+      sliceRange1 d st en = (0, d) := by
+  simp only [redundantSlice] at h
+  by_cases h1 : sp = 1
+  · by_cases h2 : st = 0
+    · rw [if_neg (not_not_intro h1), if_neg (not_not_intro h2)] at h
+      subst h1; subst h2
+      refine ⟨rfl, rfl, ?_⟩
+      intro σ d hd hmax hsrc
+      by_cases h3 : en = INT64_MAX
+      · subst h3; exact sliceRange1_zero_big d _ hd hmax
+      · rw [if_neg h3] at h
+        rcases hsrc with hsrc | ⟨s, l, rfl, hs, hl⟩
+        · exact absurd hsrc h3
+        · simp only at h
+          cases hp : pyIndex s ax with
+          | none => simp only [hp] at h; cases h
+          | some dd =>
+            cases dd with
+            | known k =>
+              simp only [hp, Bool.not_eq_true', decide_eq_false_iff_not] at h
+              obtain ⟨v, hv, hav⟩ := admits_pyIndex hs ax hp
+              rw [hl] at hv
+              simp only [Option.some.injEq] at hv
+              simp only [Dim.Admits] at hav
+              exact sliceRange1_zero_big d en hd (by omega)
+            | sym a => simp only [hp] at h; cases h
+            | unknown => simp only [hp] at h; cases h
+    · rw [if_neg (not_not_intro h1), if_pos h2] at h; cases h
+  · rw [if_pos h1] at h; cases h
+
+/-- `collapse_slice2`: every step is 1 and input and output annotations denote the same shape under every
+binding; a step-1 slice that keeps an axis' length selects the whole axis (`sliceRange1_full_of_length`). -/
+theorem slice_same_shape_sound (a b : Shape) (sp : List Int) (h : sliceSameShape (some a) (some b) (some sp) = true) :
+    (∀ x ∈ sp, x = 1) ∧ ∀ (σ : String → Nat) (l₁ l₂ : List Int), Admits σ a l₁ → Admits σ b l₂ → l₁ = l₂ := by
+  simp only [sliceSameShape, Bool.and_eq_true, List.all_eq_true, beq_iff_eq] at h
+  exact ⟨h.1, fun σ l₁ l₂ h₁ h₂ => (same_shape_sound a b h.2 σ).2 l₁ l₂ h₁ h₂⟩
+
+theorem slice_keeping_length_is_whole_axis (d st en : Int) (hd : 0 < d)
+    (h : max 0 ((sliceRange1 d st en).2 - (sliceRange1 d st en).1) = d) : sliceRange1 d st en = (0, d) := by
+  rcases sliceRange1_full_of_length d st en (by omega) h with h0 | h0
+  · omega
+  · exact h0
+
+example : redundantSlice (some 0) (some INT64_MAX) (some (-1)) (some 1) none = true := by decide
+example : redundantSlice (some 0) (some 3) (some 1) (some 1) (some [.sym "N", .known 3]) = true := by decide
+example : sliceSameShape (some [.sym "N", .known 3]) (some [.sym "N", .known 3]) (some [1, 1]) = true := by decide
+
+/-! ## `SqueezeReshape1d`, `ScatterAllStatic`, `get_shape_value`, `identity` -/
+
+/-- `Reshape(Squeeze(x), [-1])` of a 1-D `x` is `x`, for every size of that dim (1 — where Squeeze makes a
+scalar — and 0 included). -/
+theorem squeeze_reshape_1d_sound (s : Shape) (h : squeezeReshape1d (some s) = true)
+    (σ : String → Nat) (l : List Int) (hs : Admits σ s l) (hn : ∀ d ∈ l, 0 ≤ d) :
+    reshapeTarget (squeezeAllSpec l) [-1] false = some l := by
+  simp only [squeezeReshape1d, decide_eq_true_eq] at h
+  have hl := admits_length hs
+  match l, hl with
+  | [d], _ =>
+    have hd := hn d (List.mem_cons_self ..)
+    by_cases h1 : d = 1
+    · subst h1; decide
+    · have hne : (d != 1) = true := by simp [h1]
+      simp [squeezeAllSpec, hne, reshapeTarget, resolveZeros, prodInt]
+  | [], hl => simp only [List.length_nil] at hl; omega
+  | _ :: _ :: _, hl => simp only [List.length_cons] at hl; omega
+
+/-- `ScatterAllStatic`: when the rule fires, data and updates have the same shape under every binding, the first
+dim is the static `n`, and the indices are exactly rows `0 … n-1` in order (with `reduction = none`): every row
+is overwritten by the corresponding row of `updates`. -/
+theorem scatter_all_static_sound (red : Bool) (data upd : Shape) (idx : List (List Int))
+    (h : scatterAllStatic red (some data) (some upd) (some idx) = true) :
+    red = true ∧ ∃ n rest, data = .known n :: rest ∧ idx = (List.range n.toNat).map (fun (i : Nat) => [(i : Int)]) ∧
+      ∀ (σ : String → Nat) (ld lu : List Int), Admits σ data ld → Admits σ upd lu → ld = lu ∧ ld.head? = some n := by
+  simp only [scatterAllStatic, Bool.and_eq_true] at h
+  obtain ⟨⟨hr, hss⟩, hi⟩ := h
+  refine ⟨hr, ?_⟩
+  match data, hi with
+  | .known n :: rest, hi =>
+    simp only [decide_eq_true_eq] at hi
+    refine ⟨n, rest, rfl, hi, ?_⟩
+    intro σ ld lu hd hu
+    refine ⟨(same_shape_sound _ _ hss σ).2 ld lu hd hu, ?_⟩
+    cases ld with
+    | nil => simp only [Admits] at hd
+    | cons v t => simp only [Admits, Dim.Admits] at hd; simp only [List.head?_cons, hd.1]
+
+/-- `get_shape_value` on a constant: only INT64, at most 10 elements, 1-D; the result then denotes exactly the
+constant's contents. -/
+theorem get_shape_value_const (ci : ConstInfo) (sym : Option Shape) (sv : Shape)
+    (hc : (ci.isInt64 && decide (ci.vals.length ≤ 10)) = true) (h : getShapeValue (some ci) sym = some sv)
+    (σ : String → Nat) : ci.ndim = 1 ∧ Admits σ sv ci.vals := by
+  simp only [getShapeValue, hc, if_true] at h
+  by_cases hn : ci.ndim = 1
+  · simp only [hn, if_true, Option.some.injEq] at h
+    subst h; exact ⟨hn, admits_map_known_self σ _⟩
+  · simp only [hn, if_false] at h; cases h
+
+/-- `identity` evaluator (backward shape inference; a failed merge keeps the input annotation): what is
+recorded for the input is truthful whenever both annotations were. -/
+theorem identity_eval_sound (i o : Option Shape) (r : Shape) (h : evalIdentity i o = some r)
+    (σ : String → Nat) (l : List Int)
+    (hi : ∀ s, i = some s → Admits σ s l) (ho : ∀ s, o = some s → Admits σ s l) : Admits σ r l := by
+  cases i with
+  | none =>
+    simp only [evalIdentity, mergeShapes] at h
+    exact ho r h
+  | some p =>
+    cases o with
+    | none =>
+      simp only [evalIdentity, mergeShapes, Option.some.injEq] at h
+      subst h; exact hi _ rfl
+    | some q =>
+      cases hm : mergeShapes (some p) (some q) with
+      | error e =>
+        simp only [evalIdentity, hm, Option.some.injEq] at h
+        subst h; exact hi _ rfl
+      | ok v =>
+        simp only [evalIdentity, hm] at h
+        subst h
+        exact merge_shapes_sound p q r hm σ l (hi _ rfl) (ho _ rfl)
+
+example : scatterAllStatic true (some [.known 2, .sym "M"]) (some [.known 2, .sym "M"]) (some [[0], [1]]) = true := by decide
+example : getShapeValue (some ⟨true, 1, [3, -1]⟩) none = some [.known 3, .known (-1)] := by decide
+example : getShapeValue (some ⟨false, 1, [3]⟩) (some [.sym "N"]) = some [.sym "N"] := by decide
 
 end OV.Props.C09
